@@ -221,6 +221,16 @@ fn extreme_transactions() -> Vec<(&'static str, Vec<u8>)> {
             v.push((names[i * 5 + j], mk(2, 0, vec![txin(20, vec![0x51], vec![])], vec![txout(*a, p2wpkh(1)), txout(*b, p2pkh(2))])));
         }
     }
+    // the null previous output (the shape of a coinbase input) is just another outpoint for
+    // the serialisation: alone, with a witness, and next to an ordinary input
+    let null_in = |script: Vec<u8>, witness: Vec<Vec<u8>>| {
+        let mut i = txin(0, script, witness);
+        i.previous_output = OutPoint::null();
+        i
+    };
+    v.push(("single null previous output (legacy)", mk(1, 0, vec![null_in(vec![0x51, 0x52], vec![])], vec![txout(50, p2pkh(1))])));
+    v.push(("single null previous output (segwit)", mk(2, 0, vec![null_in(vec![0x03, 1, 2, 3], vec![vec![0; 32]])], vec![txout(50, p2wpkh(1)), txout(0, op_return())])));
+    v.push(("null previous output next to an ordinary input", mk(2, 0, vec![null_in(vec![], vec![]), txin(24, vec![0x51], vec![])], vec![txout(1, p2tr(2))])));
     v.push(("three outputs of 2^63", mk(2, 0, vec![txin(21, vec![], vec![vec![1; 64]])], vec![txout(1 << 63, p2tr(1)), txout(1 << 63, p2tr(2)), txout(1 << 63, p2tr(3))])));
     v.push(("253 outputs", mk(2, 0, vec![txin(22, vec![0x51], vec![])], (0..253).map(|i| txout(i as u64, p2wpkh((i % 200) as u8))).collect())));
     v.push(("253 inputs", mk(2, 0, (0..253).map(|i| txin((30 + i % 200) as u8, vec![], vec![])).collect(), vec![txout(1, p2pkh(3))])));
@@ -491,7 +501,7 @@ pub fn run(tier: &str) -> i32 {
     rep.evaluations = rep.out.states;
     rep.out.samples.push(json!({"base": bases[3].0, "payload": hex::encode(&bases[3].1), "mutation": "every truncation / 1-byte extension (256 values) / 2- and 33-byte extension / doubled / leading byte / every single-bit flip / marker-flag edge cases"}));
     rep.out.samples.push(json!({"bases": bases.iter().map(|b| b.0).collect::<Vec<_>>() }));
-    rep.rule = "12 base transactions (legacy/segwit, 0-3 inputs and outputs, empty and long scripts, witnesses with 0/1/2 items, extreme version/locktime/value) and 29 with field values at the edges of their types (all pairs of output amounts over {0, 1, 2^63, max-1, max}, sums that overflow, 253 inputs / outputs, 300 outputs) x every truncation, every 1-byte extension, 2- and 33-byte extensions, duplication, leading byte, every single-bit flip, marker/flag edge cases x api_access x requested network (both spellings of the request-side type) x canister network; distinct = distinct payload bytes; a payload is decided when an independent strict parser (Core's rules, exact consumption) and the exact round trip agree".into();
+    rep.rule = "12 base transactions (legacy/segwit, 0-3 inputs and outputs, empty and long scripts, witnesses with 0/1/2 items, extreme version/locktime/value) and 32 with field values at the edges of their types (incl. the null previous output) (all pairs of output amounts over {0, 1, 2^63, max-1, max}, sums that overflow, 253 inputs / outputs, 300 outputs) x every truncation, every 1-byte extension, 2- and 33-byte extensions, duplication, leading byte, every single-bit flip, marker/flag edge cases x api_access x requested network (both spellings of the request-side type) x canister network; distinct = distinct payload bytes; a payload is decided when an independent strict parser (Core's rules, exact consumption) and the exact round trip agree".into();
     rep.bounds = json!({"tier": tier, "bases": bases.len()});
     rep.assume("payloads on which the two reference readings disagree are counted as undecided and not judged");
     rep.assume("the inter-canister call itself is the native mock (records the request, replies at once)");
